@@ -395,10 +395,12 @@ func genBlock(r *rnd, depth int, ord int) BlockM {
 	var d *DynM
 	if dyn {
 		d = &DynM{}
-		if r.chance(3, 4) {
+		if r.chance(3, 5) {
 			d.ForEach = g.outerList(depth - 1)
 		} else {
-			d.ForEach = r.pick("c_xs", "c_xs[*]", "[for x in c_xs : x]", "c_xs[*].ys[0]")
+			// over shared variables only: these also work in the shared Expand
+			// results, whose for_each sees the Expand-time context
+			d.ForEach = r.pick("c_xs", "c_xs[*]", "c_xs[*]", "[for x in c_xs : x]", "c_xs[*].ys[0]", "try(c_xs[*], [])", "c_xs[*].ys[cb_num(0)]")
 		}
 		g.it = ""
 		if r.chance(1, 3) {
